@@ -7,6 +7,9 @@ lines (values: ints in decimal, floats as `f<hex IEEE pattern at the width of th
   C18 packd   <fmt> <vals>                            -> ok <hex> | err      as pack, float values are `d<hex float64 pattern>`
                                                         (any Python float, NOT necessarily representable in 'e' / 'f')
   C18 arrd    <dtype> <vals>                          -> ok <hex> | err      Array(dtype, vals).tobytes() with such floats
+  C18 packl   <fmt1;fmt2;…> <vals>                    -> ok <hex> | err      pack([fmt1, fmt2, …], *vals).bytes — a short HISTORY:
+                                                        the list call twice, then pack(fmt_i, …) of every part, the list call
+                                                        again, unpack through the list form twice and through every part
   C18 interp  <bits>                                  -> ok uintle,uintbe,uintne,intle,intbe,intne | err
   C18 interpf <bits>                                  -> ok floatle,floatbe,floatne | err
   C18 enc     <name> <bitlen> <val>                   -> ok <bits> | err     BitArray(<name>=val, length=bitlen)
@@ -194,6 +197,31 @@ def execute(line: str):
             extra["readlist"] = any_err(lambda: (s.readlist(fmt), s.pos), lambda r: canon_list(r[0], sizes) + " " + str(r[1]))
             extra["listfmt"] = any_err(lambda: bitstring.pack([fmt], *vals).bytes, hexwire)
         return out, extra
+    if op == "packl":
+        fmts = f[2].split(";")
+        parts = [expand(x)[1] for x in fmts]
+        specs = [STD.get(c, ("s", 1)) for cs in parts for c in cs]
+        sizes = [sp[1] for sp in specs]
+        vals = vals_of_wire(f[3], specs)
+        out = any_err(lambda: bitstring.pack(list(fmts), *vals).bytes, hexwire)               # 1st evaluation
+        extra["again"] = any_err(lambda: bitstring.pack(list(fmts), *vals).bytes, hexwire)    # 2nd, straight after
+        singles, usingles, k, off = [], [], 0, 0
+        data = b"".join(_struct_ref(lambda: struct.pack(x, *vals[i:j])) or b"" for x, i, j in _slices(fmts, parts))
+        for x, cs in zip(fmts, parts):                                                         # each part on its own
+            vp = vals[k:k + len(cs)]
+            singles.append(any_err(lambda: bitstring.pack(x, *vp).bytes, hexwire))
+            n = sum(STD.get(c, ("s", 1))[1] for c in cs)
+            chunk = data[off:off + n]
+            usingles.append(any_err(lambda: Bits(bytes=chunk).unpack(x), lambda v: canon_list(v, sizes[k:k + len(cs)])))
+            k += len(cs)
+            off += n
+        extra["singles"], extra["unpack_singles"] = singles, usingles
+        extra["third"] = any_err(lambda: bitstring.pack(list(fmts), *vals).bytes, hexwire)    # list form after the singles
+        b = Bits(bytes=data)
+        extra["unpackl"] = any_err(lambda: b.unpack(list(fmts)), lambda v: canon_list(v, sizes))
+        extra["unpackl_again"] = any_err(lambda: b.unpack(list(fmts)), lambda v: canon_list(v, sizes))
+        extra["joined"] = any_err(lambda: bitstring.pack(",".join(fmts), *vals).bytes, hexwire)
+        return out, extra
     if op == "packd":
         fmt = f[2]
         _e, codes = expand(fmt)
@@ -344,6 +372,13 @@ def execute(line: str):
     raise ValueError(line)
 
 
+def _slices(fmts, parts):
+    k = 0
+    for x, cs in zip(fmts, parts):
+        yield x, k, k + len(cs)
+        k += len(cs)
+
+
 def _append_all(dt, vals):
     a = bitstring.Array(dt)
     for v in vals:
@@ -442,6 +477,36 @@ def oracle(line: str, out: str, extra: dict):
                 return f"readlist({fmt!r}) gives {extra['readlist']}, expected {want} {8 * len(ref)}"
             if extra["listfmt"] != exp:
                 return f"pack([{fmt!r}], …) gives {extra['listfmt']}, pack({fmt!r}, …) gives {out}"
+        return None
+    if op == "packl":
+        fmts = f[2].split(";")
+        parts = [expand(x)[1] for x in fmts]
+        specs = [STD[c] for cs in parts for c in cs]
+        sizes = [sp[1] for sp in specs]
+        vals = vals_of_wire(f[3], specs)
+        refs = [_struct_ref(lambda: struct.pack(x, *vals[i:j])) if len(vals) >= j else None for x, i, j in _slices(fmts, parts)]
+        if any(r is None for r in refs) or len(vals) != len(specs):
+            return None if out == "err" else f"pack({fmts!r}, {vals!r}): struct.pack refuses a part, expected an exception, got {out}"
+        exp = "ok " + hexwire(b"".join(refs))
+        if out != exp:
+            return f"pack({fmts!r}, {vals!r}).bytes: concatenation of struct.pack of the parts gives {exp}, got {out}"
+        for k in ("again", "third", "joined"):
+            if extra[k] != exp:
+                return (f"pack({fmts!r}, {vals!r}) evaluated again ({k}) gives {extra[k]}, the first evaluation and struct.pack "
+                        f"give {exp}")
+        i = 0
+        for x, cs, r, got, ugot in zip(fmts, parts, refs, extra["singles"], extra["unpack_singles"]):
+            vp = vals[i:i + len(cs)]
+            if got != "ok " + hexwire(r):
+                return f"after the list call, pack({x!r}, {vp!r}).bytes gives {got}, struct.pack gives {r.hex()}"
+            want = "ok " + canon_list(struct.unpack(x, r), sizes[i:i + len(cs)])
+            if ugot != want:
+                return f"after the list call, unpack({x!r}) of {r.hex()} gives {ugot}, struct.unpack gives {want}"
+            i += len(cs)
+        want = "ok " + canon_list(vals, sizes)
+        for k in ("unpackl", "unpackl_again"):
+            if extra[k] != want:
+                return f"unpack({fmts!r}) ({k}) gives {extra[k]}, expected {want}"
         return None
     if op == "packd":
         fmt = f[2]
@@ -1116,9 +1181,48 @@ def gen_unrepresentable(rng, big):
             yield SEP.join(["C18", "arrd", e + "d", _dtok(x)])
 
 
+def gen_listform(rng, big):
+    """pack / unpack through a LIST of 2-4 struct format strings with mixed prefixes ('@' left out: its cases would fall
+    into the known-finding region); every case is a short history (see execute)."""
+    def part():
+        e = rng.choice("<>=")
+        body, vals = "", []
+        for _ in range(rng.randint(1, 3)):
+            c = rng.choice(CODES)
+            k = rng.choice([1, 1, 1, 2, 3])
+            body += _count_spelling(rng, c, k)
+            kind, size = STD[c]
+            for _ in range(k):
+                vals.append(_tok(kind, rng.choice(_float_patterns(size) if kind == "f" else _int_limits(kind, size)))
+                            if rng.random() < 0.4 else _rand_val(rng, kind, size))
+        return e + body, vals
+    yield SEP.join(["C18", "packl", "<hI;>H;<d", "-2,3735928559,3,f8000000000000000"])
+    yield SEP.join(["C18", "packl", "<hI", "-2,3735928559"])
+    yield SEP.join(["C18", "packl", ">h;<h", "1,1"])
+    for _ in range(6000 if big else 900):
+        ps = [part() for _ in range(rng.randint(2, 4))]
+        if rng.random() < 0.2:                              # the same format string more than once in one list
+            ps.append((ps[0][0], part_vals_like(rng, ps[0][0])))
+        yield SEP.join(["C18", "packl", ";".join(p[0] for p in ps), ",".join(v for p in ps for v in p[1])])
+    for _ in range(200 if big else 40):                     # arity / range errors: must raise, and must not poison later calls
+        ps = [part() for _ in range(rng.randint(2, 3))]
+        vals = [v for p in ps for v in p[1]]
+        if rng.random() < 0.5:
+            vals = vals[:-1]
+        else:
+            vals.append("1")
+        yield SEP.join(["C18", "packl", ";".join(p[0] for p in ps), ",".join(vals) or "-"])
+        yield SEP.join(["C18", "packl", ";".join(p[0] for p in ps), ",".join(v for p in ps for v in p[1])])
+
+
+def part_vals_like(rng, fmt):
+    return [_rand_val(rng, *STD[c]) for c in expand(fmt)[1]]
+
+
 def gen(rng, tier):
     big = tier != "quick"
     yield from gen_struct(rng, big)
+    yield from gen_listform(rng, big)
     yield from gen_unrepresentable(rng, big)
     yield from gen_interp(rng, big)
     yield from gen_enc(rng, big)
